@@ -29,7 +29,22 @@ pub const NORMALISED: &[char] = &['ａ', 'ｂ', '１', '２', 'Ｚ', '９', '。
 /// Symbols with a meaning in the two annotation formats.
 pub const META: &[char] = &[' ', '/', '\\', '-', '|'];
 
+/// Every character the KyTea full-width normaliser rewrites (the keys of its table).
+pub const NORMALISER_SOURCES: &str = "abcdefghijklmnopqrstuvwxyzABCDEFGHIJKLMNOPQRSTUVWXYZ0123456789(){}<>｢｣[]-～.－/_,%?､―\"'･─+:–!｡&*@=";
+
+/// The long-vowel-mark look-alikes (real-world typos such as ス―パ―): four characters of class
+/// Other that the normaliser turns into the katakana prolonged sound mark.
+pub const DASHES: &[char] = &['－', '―', '─', '–', 'ー'];
+
 pub fn gen_char(rng: &mut Rng) -> char {
+    match rng.below(24) {
+        0 | 1 => {
+            let n = NORMALISER_SOURCES.chars().count();
+            return NORMALISER_SOURCES.chars().nth(rng.below(n)).unwrap();
+        }
+        2 => return *rng.pick(DASHES),
+        _ => {}
+    }
     if rng.chance(3, 4) {
         *rng.pick(CORE)
     } else {
@@ -43,6 +58,7 @@ pub fn gen_pattern(rng: &mut Rng, n: usize) -> String {
         .map(|_| match rng.below(20) {
             0 | 1 => *rng.pick(EXTRA),
             2..=4 => *rng.pick(NORMALISED),
+            5 => *rng.pick(DASHES),
             _ => *rng.pick(CORE),
         })
         .collect()
@@ -210,7 +226,15 @@ pub fn gen_annotated_over(rng: &mut Rng, chars: Vec<char>, allow_unknown: bool) 
         if want {
             let k = if tag_mode == 2 { max_tags } else { rng.range(1, max_tags) };
             for _ in 0..k {
-                tags[i].push(if rng.chance(1, 6) { None } else { Some(gen_tag(rng)) });
+                tags[i].push(if rng.chance(1, 6) {
+                    None
+                } else if rng.chance(1, 12) {
+                    // a tag that equals text of the sentence itself (its token, or a piece of it)
+                    let start = (0..=i).rev().find(|&j| j == 0 || labels[j - 1] != 0).unwrap_or(0);
+                    Some(chars[start..=i].iter().collect())
+                } else {
+                    Some(gen_tag(rng))
+                });
             }
         }
     }
